@@ -17,24 +17,13 @@ Definition obj1 (k : bytes) (v : jv) : jv := JObj [(k, v)].
 Definition qeq (f : bytes) (v : jv) : query := mkq [[mkc f OpEQ v]] [] 0.
 Definition by_id (id : bytes) : query := qeq idn (JStr (hex_encode id)).
 
-(* ---- INTEGER fields: the column holds int64(number), the payload the number ---- *)
-Definition fl_now : flags := mkfl true false true.   (* the code as it is *)
-Definition sch_int : schema := new_schema fl_now idn [(fN, TInt)] [].
+(* ---- INTEGER fields: a number without an exact int64 representation is rejected (the former
+   witness {n: 0.5} of the int64 cast is no longer storable) ---- *)
+Definition sch_int : schema := new_schema true idn [(fN, TInt)] [].
 Definition ops_int : list op := [OInsert [([1], obj1 fN (JNum half))]].
-
-Lemma search_refuted :
-  exists sch ops q, let st := fst (run (init sch) ops) in
-    engine_search st q 0 <> spec_search st q 0.
-Proof.
-  exists sch_int, ops_int, (qeq fN (jint 0)). intros st H. vm_compute in H. discriminate.
-Qed.
-
-(* the engine returns the document {n: 0.5} for n = 0; on the payload nothing satisfies n = 0 *)
-Lemma search_refuted_detail :
-  let st := fst (run (init sch_int) ops_int) in
-  option_map (map l_id) (match engine_search st (qeq fN (jint 0)) 0 with Ok l => Some l | _ => None end) = Some [[1]] /\
-  option_map (map l_id) (match spec_search st (qeq fN (jint 0)) 0 with Ok l => Some l | _ => None end) = Some [].
-Proof. vm_compute. split; reflexivity. Qed.
+Lemma non_integral_integer_rejected :
+  snd (run (init sch_int) ops_int) = [XErr] /\ st_docs (fst (run (init sch_int) ops_int)) = [].
+Proof. vm_compute. auto. Qed.
 
 (* ---- a field added after a document was stored: its column is NULL for that document ---- *)
 Definition ops_late : list op :=
@@ -46,7 +35,7 @@ Lemma search_refuted_late_field :
 Proof. intros st H. vm_compute in H. discriminate. Qed.
 
 (* ---- DOUBLE keys: -0.0 and +0.0 are one value with two keys ---- *)
-Definition sch_dbl : schema := new_schema fl_now idn [(fD, TDbl)] [].
+Definition sch_dbl : schema := new_schema true idn [(fD, TDbl)] [].
 Definition ops_dbl : list op :=
   [OInsert [([1], obj1 fD (JNum nzero))]; OInsert [([2], obj1 fD (JNum pzero))]].
 
@@ -58,22 +47,13 @@ Proof.
   intros H. vm_compute in H. discriminate.
 Qed.
 
-(* ---- unique index: the first key under the value is a tombstone ---- *)
-Definition sch_uniq : schema := new_schema fl_now idn [(fN, TInt)] [mkix [fN] true].
+(* ---- unique index: the former witnesses of the first-key/tombstone defect are rejected now ---- *)
+Definition sch_uniq : schema := new_schema true idn [(fN, TInt)] [mkix [fN] true].
 Definition ops_uniq : list op :=
   [OInsert [([1], obj1 fN (jint 20))]; ODelete (by_id [1]);
    OInsert [([2], obj1 fN (jint 20))]; OInsert [([3], obj1 fN (jint 20))]].
-
-Lemma unique_refuted : exists sch ops, uniq_okb (fst (run (init sch) ops)) = false.
-Proof. exists sch_uniq, ops_uniq. vm_compute. reflexivity. Qed.
-
-(* the same through a replace: A 10 -> 11, B 50 -> 10, C 60 -> 10 *)
-Definition ops_uniq_replace : list op :=
-  [OInsert [([1], obj1 fN (jint 10))]; OInsert [([2], obj1 fN (jint 50))]; OInsert [([3], obj1 fN (jint 60))];
-   OReplace (by_id [1]) (obj1 fN (jint 11));
-   OReplace (by_id [2]) (obj1 fN (jint 10));
-   OReplace (by_id [3]) (obj1 fN (jint 10))].
-Lemma unique_refuted_by_replace : uniq_okb (fst (run (init sch_uniq) ops_uniq_replace)) = false.
+Lemma tombstone_history_keeps_unique :
+  snd (run (init sch_uniq) ops_uniq) = [XWritten [([1], 1)]; XWritten [([1], 2)]; XWritten [([2], 1)]; XErr].
 Proof. vm_compute. reflexivity. Qed.
 
 (* ---------- the premises of the partial theorems are satisfiable ---------- *)
@@ -83,16 +63,12 @@ Definition st_ok : state := fst (run (init sch_int) ops_ok).
 Definition q_ok : query := mkq [[mkc fN OpGE (jint 3); mkc fN OpLT (jint 7)]] [(fN, true)] 1.
 
 Example search_partial_premises_hold :
-  rows_agree st_ok /\ ints_exact_rows st_ok /\ ints_exact_query (st_sch st_ok) q_ok /\ nz_safe st_ok q_ok /\
+  rows_agree st_ok /\ nz_safe st_ok q_ok /\
   option_map (map l_id) (match engine_search st_ok q_ok 0 with Ok l => Some l | _ => None end) = Some [[1]].
 Proof.
-  split; [|split; [|split; [|split; [split|]]]].
+  split; [|split; [split|]].
   - intros r f Hr Hf. vm_compute in Hr, Hf.
-    destruct Hf as [<-|[]]. destruct Hr as [<-|[<-|[]]]; reflexivity.
-  - intros r f n Hr Hf T D. vm_compute in Hr, Hf.
-    destruct Hf as [<-|[]]. destruct Hr as [<-|[<-|[]]]; vm_compute in D; inversion D; subst; vm_compute; auto.
-  - intros g c f n Hg Hc E F T V. vm_compute in Hg. destruct Hg as [<-|[]].
-    destruct Hc as [<-|[<-|[]]]; simpl in V; inversion V; subst; vm_compute; auto.
+    destruct Hf as [<-|[]]. destruct Hr as [<-|[<-|[]]]; vm_compute; reflexivity.
   - intros r name Hr. vm_compute in Hr. right.
     destruct Hr as [<-|[<-|[]]]; unfold col_val0, col_val; simpl;
       (destruct (bytes_eqb name idn); simpl; [exact I|]);
@@ -103,6 +79,7 @@ Proof.
   - vm_compute. reflexivity.
 Qed.
 
-Example unique_partial_premise_holds :
-  forallb insert_or_read ops_ok = true /\ length (lives (st_docs st_ok)) = 2%nat.
+Example unique_premise_holds :
+  forallb keeps_fields (ops_ok ++ [OReplace (by_id [1]) (obj1 fN (jint 9)); ODelete (by_id [2])]) = true /\
+  length (lives (st_docs st_ok)) = 2%nat.
 Proof. vm_compute. auto. Qed.
